@@ -1,1 +1,104 @@
-import Simfile.Spec.Group
+/-
+C09 — group_notes refines its declarative specification; the counting functions built on it.
+Property theorems only; helper lemmas live in Simfile/Lemmas/Group*.lean.
+-/
+import Simfile.Lemmas.GroupJoinMain
+import Simfile.Lemmas.GroupRuns
+namespace Simfile.C09
+open Simfile
+
+/-- the characters of the note types used by grouping and counting -/
+theorem note_chars : cTAP = '1' ∧ cHOLD = '2' ∧ cTAIL = '3' ∧ cROLL = '4' ∧ cMINE = 'M' ∧ cLIFT = 'L' ∧
+    cFAKE = 'F' := by decide
+
+theorem default_note_types : defaultNoteTypes = ['1', '2', '4', 'L'] := by decide
+
+/-- mines are counted one by one -/
+theorem count_mines_spec (ns : List Note) : countMines ns = (ns.filter (·.ntype = cMINE)).length := rfl
+
+/-- without joining, grouping is: filter, cut into maximal runs of equal beat, split every row -/
+theorem rows_join_off (o : GOpts) (ns : List Note) (h : o.join = false) :
+    groupNotes o ns = .ok ((groupRuns GNote.beat ((ns.filter fun n => o.incl.contains n.ntype).map .plain)).flatMap
+      fun r => addRow o.sameBeat r.2) := by
+  simp [groupNotes, h, bind, Except.bind, pure, Except.pure]
+
+/-- the join phase (the streaming generator with its `held_columns` dictionary and output buffer)
+computes the neighbour-based classification: same output, and an exception exactly when the
+specification raises -/
+theorem join_refines_spec (o : GOpts) (F : List Note) (h : F.Nodup) :
+    joinHeadsToTails o F = Spec.joinSpec o F :=
+  Join.join_refines_spec o F h
+
+/-- `group_notes` refines its specification: for every option combination and every stream of pairwise
+distinct notes (sorted or not) -/
+theorem group_refines_spec (o : GOpts) (ns : List Note) (h : ns.Nodup) :
+    groupNotes o ns = Spec.groupSpec o ns := by
+  unfold groupNotes Spec.groupSpec
+  cases hj : o.join with
+  | false => rfl
+  | true =>
+    simp only [if_true]
+    rw [Join.join_refines_spec o _ (List.Nodup.sublist List.filter_sublist h)]
+
+/-- holds / rolls are counted as the items the join phase emits for {head type, TAIL} -/
+theorem count_holds_spec (ns : List Note) (h : ns.Nodup) (head : Char) (oh ot : Orphan) :
+    countHoldsOrRolls ns head oh ot = Spec.holdsSpec ns head oh ot := by
+  unfold countHoldsOrRolls Spec.holdsSpec
+  rw [group_refines_spec _ ns h]
+  unfold Spec.groupSpec
+  simp only [if_true]
+  cases Spec.joinSpec { incl := [head, cTAIL], join := true, orphanHead := oh, orphanTail := ot }
+      (ns.filter fun n => [head, cTAIL].contains n.ntype) with
+  | error e => rfl
+  | ok s =>
+    simp only [bind, Except.bind, pure, Except.pure]
+    rw [Runs.keepSeparate_rows, Runs.countGrouped_singletons]
+
+/-- steps / jumps / hands: on a stream with non-decreasing beats, the groups of at least `k` notes
+(`SameBeatNotes.JOIN_ALL`) are the beats that carry at least `k` notes of the included types
+(holds for every `k`, in particular `k = 1, 2, 3`) -/
+theorem count_steps_spec (ns : List Note) (incl : List Char) (k : Nat)
+    (hs : (ns.map (·.beat)).Pairwise (· ≤ ·)) :
+    countSteps ns incl .joinAll k = .ok (Spec.beatsWithAtLeast ns incl k) := by
+  unfold countSteps Spec.beatsWithAtLeast
+  rw [rows_join_off _ ns rfl]
+  simp only [bind, Except.bind, pure, Except.pure]
+  rw [Runs.countGrouped_joinAll]
+  exact List.Pairwise.sublist (List.Sublist.map _ List.filter_sublist) hs
+
+/-! ### non-vacuity: concrete streams meeting the hypotheses -/
+
+private def nt (b : Rat) (c : Nat) (t : Char) : Note := { beat := b, column := c, ntype := t }
+
+/-- two overlapping holds (columns 0 and 1), a roll head interrupted by a tap (column 2),
+an orphan tail (column 3), a mine, and a hold that is never closed (column 0) -/
+private def exStream : List Note :=
+  [nt 0 0 cHOLD, nt 1 1 cHOLD, nt 2 0 cTAIL, nt 3 1 cTAIL, nt 4 2 cROLL, nt 5 2 cTAP, nt 6 3 cTAIL,
+   nt 6 1 cMINE, nt 7 0 cHOLD]
+
+private def exOpts (oh ot : Orphan) : GOpts :=
+  { incl := [cTAP, cHOLD, cROLL, cTAIL], join := true, orphanHead := oh, orphanTail := ot }
+
+example : exStream.Nodup := by decide +kernel
+example : (exStream.map (·.beat)).Pairwise (· ≤ ·) := by decide +kernel
+example : groupNotes (exOpts .keep .drop) exStream =
+    .ok [[.withTail (nt 0 0 cHOLD) 2], [.withTail (nt 1 1 cHOLD) 3], [.plain (nt 4 2 cROLL)],
+         [.plain (nt 5 2 cTAP)], [.plain (nt 7 0 cHOLD)]] := by decide +kernel
+example : groupNotes (exOpts .drop .keep) exStream =
+    .ok [[.withTail (nt 0 0 cHOLD) 2], [.withTail (nt 1 1 cHOLD) 3], [.plain (nt 5 2 cTAP)],
+         [.plain (nt 6 3 cTAIL)]] := by decide +kernel
+example : groupNotes (exOpts .raise .drop) exStream = .error .orphaned := by decide +kernel
+example : Spec.groupSpec (exOpts .keep .raise) exStream = .error .orphaned := by decide +kernel
+example : countHoldsOrRolls exStream cHOLD .keep .drop = .ok 3 := by decide +kernel
+example : countSteps (exStream ++ [nt 7 2 cTAP, nt 7 3 cTAP]) defaultNoteTypes .joinAll 2 = .ok 1 := by
+  decide +kernel
+
+/-- the hypothesis `Nodup` of `group_refines_spec` cannot be dropped: when the same head occurs twice,
+`buffer.index(head)` finds the first (already orphaned, kept) copy and attaches the tail there -/
+example :
+    let h1 := nt 0 1 cHOLD; let h0 := nt 0 0 cHOLD; let t0 := nt 1 0 cTAIL
+    joinHeadsToTails (exOpts .keep .keep) [h1, h0, h0, t0] = .ok [.plain h1, .withTail h0 1, .plain h0] ∧
+    Spec.joinSpec (exOpts .keep .keep) [h1, h0, h0, t0] = .ok [.plain h1, .plain h0, .withTail h0 1] := by
+  decide +kernel
+
+end Simfile.C09
